@@ -9,10 +9,12 @@ import (
 	"context"
 	"fmt"
 	"math/rand"
+	"os"
 	"path/filepath"
 	"sync"
 
 	"git.defalsify.org/vise.git/cache"
+	fsdb "git.defalsify.org/vise.git/db/fs"
 	"git.defalsify.org/vise.git/engine"
 	"git.defalsify.org/vise.git/persist"
 	"git.defalsify.org/vise.git/resource"
@@ -70,19 +72,29 @@ func (r *sharedResource) FuncFor(ctx context.Context, sym string) (resource.Entr
 }
 
 // serveQuiet runs one history without any recording and returns the transcript.
-func serveQuiet(p *Program, code map[string][]byte, sid string, mode string, inputs []string, pseed int64) []string {
+// mode "L": one long-lived engine; "P": a new engine per request over the session's own memory store; "F": a new engine
+// AND a new filesystem store handle per request, all sessions' handles connected to the same data directory fsdir
+// (sessions share the directory, as deployed applications do, but no library object).
+func serveQuiet(p *Program, code map[string][]byte, sid string, mode string, inputs []string, pseed int64, fsdir ...string) []string {
 	ctx := context.Background()
 	req, call := 0, 0
 	rs := &sharedResource{prog: p, code: code, pseed: pseed, req: &req, call: &call}
 	cfg := engine.Config{Root: p.Root, FlagCount: uint32(p.FlagCount), OutputSize: uint32(p.OutputSize), SessionId: sid}
 	var out []string
 	var en *engine.DefaultEngine
-	store := newMemStore()
+	var store dbLike = newMemStore()
 	for _, in := range inputs {
 		call = 0
-		if mode == "P" || en == nil {
+		if mode == "P" || mode == "F" || en == nil {
 			en = engine.NewEngine(cfg, rs)
-			if mode == "P" {
+			if mode == "F" {
+				fs := fsdb.NewFsDb()
+				if err := fs.Connect(ctx, fsdir[0]); err != nil {
+					panic(err)
+				}
+				store = fs
+			}
+			if mode == "P" || mode == "F" {
 				en = en.WithPersister(persist.NewPersister(store))
 			} else {
 				en = en.WithState(state.NewState(uint32(p.FlagCount))).WithMemory(cache.NewCache())
@@ -100,10 +112,11 @@ func serveQuiet(p *Program, code map[string][]byte, sid string, mode string, inp
 			if err == nil {
 				en.Flush(ctx, w)
 			}
-			if mode == "P" {
-				en.Finish(ctx)
+			ferr := false
+			if mode == "P" || mode == "F" {
+				ferr = en.Finish(ctx) != nil
 			}
-			line = fmt.Sprintf("%v|%v|%s", cont, err != nil, w.String())
+			line = fmt.Sprintf("%v|%v|%v|%s", cont, err != nil, ferr, w.String())
 		}()
 		out = append(out, line)
 		req++
@@ -167,23 +180,42 @@ func cmdRaceRun(args []string) error {
 		for k := 1; k < n; k++ {
 			inputs = append(inputs, p.Inputs[rng.Intn(len(p.Inputs))])
 		}
-		job := raceJob{p: p, mode: []string{"L", "P"}[rng.Intn(2)], inputs: inputs, pseed: rng.Int63()}
-		// solo transcript over PRIVATE, exact-capacity data
-		job.solo = serveQuiet(p, cloneCode(p, 0), "solo", job.mode, inputs, job.pseed)
+		job := raceJob{p: p, mode: []string{"L", "P", "F"}[rng.Intn(3)], inputs: inputs, pseed: rng.Int63()}
+		// solo transcript over PRIVATE, exact-capacity data (and a private data directory)
+		solodir, err := os.MkdirTemp("", "verif-race-solo-")
+		if err != nil {
+			return err
+		}
+		job.solo = serveQuiet(p, cloneCode(p, 0), "solo", job.mode, inputs, job.pseed, solodir)
+		os.RemoveAll(solodir)
 		jobs = append(jobs, job)
 	}
+	shareddir, err := os.MkdirTemp("", "verif-race-data-")
+	if err != nil {
+		return err
+	}
+	defer os.RemoveAll(shareddir)
 	var wg sync.WaitGroup
 	var mu sync.Mutex
 	mism := []map[string]any{}
 	nmis := 0
 	ch := make(chan int)
+	// a session id is used once: every serving of a job gets its own id (and so its own record in the shared directory)
+	var repmu sync.Mutex
+	reps := map[int]int{}
+	rep := func(j int) int {
+		repmu.Lock()
+		defer repmu.Unlock()
+		reps[j]++
+		return reps[j]
+	}
 	for w := 0; w < workers; w++ {
 		wg.Add(1)
 		go func(w int) {
 			defer wg.Done()
 			for j := range ch {
 				job := jobs[j]
-				got := serveQuiet(job.p, shared[job.p], fmt.Sprintf("w%d.j%d", w, j), job.mode, job.inputs, job.pseed)
+				got := serveQuiet(job.p, shared[job.p], fmt.Sprintf("w%d_j%d_%d", w, j, rep(j)), job.mode, job.inputs, job.pseed, shareddir)
 				same := len(got) == len(job.solo)
 				for k := 0; same && k < len(got); k++ {
 					same = got[k] == job.solo[k]
